@@ -25,7 +25,7 @@ pub struct CompilerState { pub x: u8 }
 impl CompilerState { #[verifier::external_body] pub fn syntax_error(&self, message: &str, loc: usize) -> Error { unimplemented!() } }
 // one event per generator call; a body handed to a generator is identified by the statement itself
 pub enum Ev {
-    Purge, Label(Seq<char>), Expr(Expr), For(Expr, Expr, Expr, StatementLoc), If(Expr, StatementLoc, Option<StatementLoc>), While(Expr, StatementLoc), DoWhile(StatementLoc, Expr),
+    Purge, Label(Seq<char>), Expr(Expr, bool), For(Expr, Expr, Expr, StatementLoc), If(Expr, StatementLoc, Option<StatementLoc>), While(Expr, StatementLoc), DoWhile(StatementLoc, Expr),
     Switch(Expr, Vec<(Vec<i32>, Vec<StatementLoc>)>), Break, Continue, Return(Expr), Asm(Seq<char>, Option<u32>), Strobe(Expr), Transfer(ExprType, bool), CSleep(i32), Goto(Seq<char>),
 }
 pub uninterp spec fn operand_of(e: Expr) -> ExprType;
@@ -34,7 +34,7 @@ pub struct AssemblyCode { pub empty: bool }
 impl AssemblyCode { #[verifier::external_body] pub fn is_empty(&self) -> (r: bool) ensures r == self.empty { unimplemented!() } }
 pub struct GeneratorState<'a> {
     pub compiler_state: &'a CompilerState,
-    pub acc_in_use: bool, pub tmp_in_use: bool, pub insert_code: bool,
+    pub acc_in_use: bool, pub tmp_in_use: bool, pub insert_code: bool, pub protected: bool,
     pub flags: FlagsState, pub carry_flag_ok: bool,
     pub current_function: Option<String>,
     pub functions_code: HashMap<String, AssemblyCode>,
@@ -49,7 +49,7 @@ pub open spec fn label_ev(c: StatementLoc) -> Seq<Ev> { match c.label { Some(l) 
 pub open spec fn stmt_ev(s: Statement) -> Seq<Ev> decreases s {
     match s {
         Statement::Block(v) => block_ev(v@, v@.len() as int),
-        Statement::Expression(e) => seq![Ev::Expr(e)],
+        Statement::Expression(e) => seq![Ev::Expr(e, false)],
         Statement::For { init, condition, update, body } => seq![Ev::For(init, condition, update, *body)],
         Statement::If { condition, body, else_body } => seq![Ev::If(condition, *body, match else_body { Some(b) => Some(*b), None => None })],
         Statement::While { condition, body } => seq![Ev::While(condition, *body)],
@@ -60,8 +60,9 @@ pub open spec fn stmt_ev(s: Statement) -> Seq<Ev> decreases s {
         Statement::Return(e) => seq![Ev::Return(e)],
         Statement::Asm(t, n) => seq![Ev::Asm(t@, n)],
         Statement::Strobe(e) => seq![Ev::Strobe(e)],
-        Statement::Store(e) => seq![Ev::Expr(e), Ev::Transfer(operand_of(e), false)],
-        Statement::Load(e) => seq![Ev::Expr(e), Ev::Transfer(operand_of(e), true)],
+        Statement::Store(e) => seq![Ev::Expr(e, false), Ev::Transfer(operand_of(e), false)],
+        // the code that computes a value to be loaded IS the load: it is generated protected
+        Statement::Load(e) => seq![Ev::Expr(e, true), Ev::Transfer(operand_of(e), true)],
         Statement::CSleep(n) => seq![Ev::CSleep(n)],
         Statement::Goto(l) => seq![Ev::Goto(l@)],
         Statement::LocalVarDecl => Seq::<Ev>::empty(),
@@ -76,16 +77,16 @@ pub open spec fn block_ev(v: Seq<StatementLoc>, n: int) -> Seq<Ev> decreases v, 
 STUBS = """
     #[verifier::external_body] fn insert_source_comment_block(&mut self, pos: usize) -> (res: Result<(), Error>)
         ensures final(self).compiler_state == old(self).compiler_state, final(self).log@ == old(self).log@, final(self).acc_in_use == old(self).acc_in_use, final(self).tmp_in_use == old(self).tmp_in_use,
-            final(self).flags == old(self).flags, final(self).carry_flag_ok == old(self).carry_flag_ok, final(self).at_function_entry@ == old(self).at_function_entry@,
+            final(self).flags == old(self).flags, final(self).carry_flag_ok == old(self).carry_flag_ok, final(self).at_function_entry@ == old(self).at_function_entry@, final(self).protected == old(self).protected,
     { unimplemented!() }
     #[verifier::external_body] fn purge_deferred_plusplus_and_savey(&mut self) -> (res: Result<(), Error>)
-        ensures final(self).compiler_state == old(self).compiler_state, res is Ok ==> final(self).log@ == old(self).log@.push(Ev::Purge),
+        ensures final(self).compiler_state == old(self).compiler_state, final(self).protected == old(self).protected, res is Ok ==> final(self).log@ == old(self).log@.push(Ev::Purge),
             // flushing a deferred ++/-- emits code only if there is one: at a function's entry there is none (the flags belief may only change towards what that code left)
             old(self).at_function_entry@ ==> final(self).flags == old(self).flags && final(self).carry_flag_ok == old(self).carry_flag_ok && final(self).at_function_entry@,
             !old(self).at_function_entry@ ==> !final(self).at_function_entry@,
     { unimplemented!() }
     #[verifier::external_body] pub(crate) fn label(&mut self, l: &str) -> (res: Result<(), Error>)
-        ensures final(self).compiler_state == old(self).compiler_state, final(self).acc_in_use == old(self).acc_in_use, final(self).tmp_in_use == old(self).tmp_in_use,
+        ensures final(self).compiler_state == old(self).compiler_state, final(self).acc_in_use == old(self).acc_in_use, final(self).tmp_in_use == old(self).tmp_in_use, final(self).protected == old(self).protected,
             res is Ok ==> final(self).log@ == old(self).log@.push(Ev::Label(l@)),
             final(self).flags is Unknown && !final(self).carry_flag_ok, final(self).at_function_entry@ == false,      // a label forgets the belief (generate_asm.rs: label())
     { unimplemented!() }
@@ -94,7 +95,7 @@ STUBS = """
 
 # (name, parameter list, event)
 GENS = [
-    ("generate_expr", "expr: &Expr, pos: usize, high_byte: bool, second_time: bool", "Result<ExprType, Error>", "Ev::Expr(*expr)", "!high_byte && !second_time", "res->Ok_0 == operand_of(*expr)"),
+    ("generate_expr", "expr: &Expr, pos: usize, high_byte: bool, second_time: bool", "Result<ExprType, Error>", "Ev::Expr(*expr, old(self).protected)", "!high_byte && !second_time", "res->Ok_0 == operand_of(*expr)"),
     ("generate_for_loop", "init: &Expr, condition: &Expr, update: &Expr, body: &StatementLoc, pos: usize", "Result<(), Error>", "Ev::For(*init, *condition, *update, *body)", "true", "true"),
     ("generate_if", "condition: &Expr, body: &StatementLoc, else_body: Option<&StatementLoc>, pos: usize", "Result<(), Error>",
      "Ev::If(*condition, *body, match else_body { Some(b) => Some(*b), None => None })", "true", "true"),
@@ -113,9 +114,10 @@ GENS = [
 
 HEADER = """#[verifier::exec_allows_no_decreases_clause]
 pub fn generate_statement(&mut self, code: &StatementLoc) -> (res: Result<(), Error>)
-        requires old(self).at_function_entry@ ==> (entering(old(self)) || (old(self).flags is Unknown && !old(self).carry_flag_ok)),
+        requires old(self).at_function_entry@ ==> (entering(old(self)) || (old(self).flags is Unknown && !old(self).carry_flag_ok)), !old(self).protected,
         ensures
             final(self).compiler_state == old(self).compiler_state,
+            !final(self).protected, //@ C18:statement-leaves-protection-off
             res is Ok ==> final(self).log@ =~= old(self).log@ + gen_ev(*code), //@ C18,C01:statements-generated-once-in-source-order
             res is Ok ==> (final(self).at_function_entry@ ==> final(self).flags is Unknown && !final(self).carry_flag_ok),
 """
@@ -172,7 +174,7 @@ def build(repo):
     f.before(r"^\s*match &code\.statement \{", "        proof { assert(self.at_function_entry@ ==> (self.flags is Unknown && !self.carry_flag_ok)); //@ C01,C02:function-entry-forgets-flags\n        }")
     f.loop_spec(1, r"^for __n in 0\.\.statements\.len\(\)$", """
                     invariant
-                        self.compiler_state == old(self).compiler_state,
+                        self.compiler_state == old(self).compiler_state, !self.protected,
                         self.log@ =~= log0 + seq![Ev::Purge] + label_ev(*code) + block_ev(statements@, __n as int), //@ C18,C01:block-statements-in-order
                         self.at_function_entry@ ==> (self.flags is Unknown && !self.carry_flag_ok),
 """)
@@ -181,7 +183,7 @@ def build(repo):
         gens.append("""    #[verifier::external_body] fn %(name)s(&mut self, %(params)s) -> (res: %(ret)s)
         requires (!old(self).acc_in_use && !old(self).tmp_in_use) || %(free_ok)s, //@ C01:statement-generated-with-free-accumulator-and-scratch
             %(extra_req)s,
-        ensures final(self).compiler_state == old(self).compiler_state, res is Ok ==> final(self).log@ == old(self).log@.push(%(ev)s), res is Ok ==> %(extra_ens)s,
+        ensures final(self).compiler_state == old(self).compiler_state, final(self).protected == old(self).protected, res is Ok ==> final(self).log@ == old(self).log@.push(%(ev)s), res is Ok ==> %(extra_ens)s,
             final(self).at_function_entry@ == false,
     { unimplemented!() }""" % {"name": name, "params": params, "ret": ret, "ev": ev, "extra_req": extra_req, "extra_ens": extra_ens, "free_ok": "true" if name == "generate_load_store_statement" else "false"})
     text = common.PRELUDE + common.header_comment(NAME, cuts) + "verus! {\n" + (SPECS % {"types": "\n".join(tys)}) + fm.text() + \
